@@ -44,7 +44,9 @@ JOBS = {
         "C09": [], "C11": [], "C16": [],
     },
     "thorough": {
-        "C07": [("StoreMC", store_cfg(2, VALS, "{1}", 4, 6, "{}", 2, ["C07_CompactionInvisible", "C07_TombstonesKept"]))],
+        # measured: 2.5 M and 3.8 M distinct states, 4-6 min each with 12 workers (one more table or step: > 10^8 states)
+        "C07": [("StoreMC", store_cfg(2, VALS, "{1}", 3, 4, "{}", 2, ["C07_CompactionInvisible", "C07_TombstonesKept"])),
+                ("StoreMC", store_cfg(2, '{<<"d","","">>, <<"v","A","">>, <<"v","B","">>}', "{1}", 3, 5, "{}", 2, ["C07_CompactionInvisible", "C07_TombstonesKept"]))],
         "C13": [("StoreMC", store_cfg(2, '{<<"v","A","">>}', "{1, 2, 3}", 3, 5, EXP5, 1, ["C13_ExpiryExact", "C07_CompactionInvisible"]))],
         "C12": [("NamesMC", names_cfg(NAMES7, 3))],
         "C03": [("StoreMC", store_cfg(3, '{<<"d","","">>, <<"v","A","">>, <<"v","B","">>}', "{1}", 3, 4, "{}", 2, ["C07_CompactionInvisible"])),
